@@ -11,8 +11,8 @@ from .. import kernel
 PROPERTY = 'C15'
 LEVEL = 'model_checking'
 STATES_FROM_COUNTERS = ('schedules', 'scheduling_points')     # complete schedules explored / scheduling decisions taken
-RULE = ('(a) every sequence of <= 3 (quick) / 4 (thorough) runs on one thread over 18 kinds {ok, root raises (4 exception types), root returns a truthy / '
-        'falsy value, activities blocked for ever, till (one / several survivors, till 0, till = start, activities parked in tickers / start delays / at the end of their own scope), nested run that succeeds / fails / leaks}, each with its own start time; '
+RULE = ('(a) every sequence of <= 3 (quick) / 4 (thorough) runs on one thread over 20 kinds {ok, root raises (4 exception types), root returns a truthy / '
+        'falsy value, activities blocked for ever, till (one / several survivors, till 0, till = start, activities parked in tickers / start delays / at the end of their own scope, till before start), a child cancelled in the time step in which it finishes, nested run that succeeds / fails / leaks}, each with its own start time; '
         '(b) every interleaving of 2 (preemption bound 3 quick / 5 thorough) and 3 (preemption bound 1 quick / 2 thorough) OS threads '
         'that each run a small simulation (thorough: 2 threads with <= 5 preemptions), under a controlled scheduler with scheduling points after every activation and around the '
         'assignment of the thread\'s current loop. Oracle: time.now raises outside of run() in every thread; roots start at `start` '
@@ -41,7 +41,7 @@ class Boom(Exception):
 
 # ---- (a) run histories --------------------------------------------------------------------------------
 KINDS = ('ok', 'raise', 'raise-IndexError', 'raise-KeyError', 'raise-StopIteration', 'return7', 'return0', 'returnFalse', 'blocked',
-         'till', 'till0', 'till3', 'tillnow', 'till-parked', 'till-scope', 'nested-ok', 'nested-raise', 'nested-leak')
+         'till', 'till0', 'till3', 'tillnow', 'till-parked', 'till-scope', 'till-past', 'cancel-tie', 'nested-ok', 'nested-raise', 'nested-leak')
 
 
 def do_run(kind, start, log):
@@ -153,6 +153,29 @@ def do_run(kind, start, log):
         usim.run(parent('p'), parent('q'), a('c', 1), start=start, till=start + 2)
         if ('c', 'end', start + 1) not in marks or any(m[1] == 'end' and m[0] != 'c' for m in marks) or any(m[2] > start + 2 for m in marks):
             msgs.append('till-scope: %r' % (marks,))
+    elif kind == 'till-past':
+        # a deadline that lies before the start time is never reached: the run ends at quiescence
+        usim.run(a('a', 1), a('b', 2), start=start, till=start - 5)
+        check_order(['a', 'b'])
+        if marks[-1:] != [('b', 'end', start + 2)]:
+            msgs.append('till-past: %r' % (marks,))
+    elif kind == 'cancel-tie':
+        # a child is cancelled in the very time step in which it then finishes by itself (the canceller wakes first):
+        # nothing of that may end the run
+        async def parent(name, fail):
+            marks.append((name, 'start', time.now))
+            try:
+                async with Scope() as scope:
+                    task = scope.do(a(name + '1', 1, (lambda: 1 / 0) if fail else None))
+                    await (time + 1)
+                    task.cancel()
+                    await (time + 2)
+            except usim.Concurrent:
+                marks.append((name, 'caught', time.now))
+            marks.append((name, 'end', time.now))
+        usim.run(parent('p', False), parent('q', True), a('c', 4), start=start)
+        if ('p', 'end', start + 3) not in marks or ('q', 'end', start + 1) not in marks or marks[-1] != ('c', 'end', start + 4):
+            msgs.append('cancel-tie: %r' % (marks,))
     elif kind.startswith('nested'):
         inner_kind = {'nested-ok': 'ok', 'nested-raise': 'raise', 'nested-leak': 'return0'}[kind]
         inner_msgs = []
